@@ -315,9 +315,138 @@ def req_data(case):
 STYLES = ("data", "kwargs", "mixed", "override")
 
 
+# ------------------------------------------------------------------ requests built by the library's own builders
+# A populated device (UID, every ecoMAX / mixer / thermostat parameter, the thermostat profile, all 40 schedules,
+# the control switch) is fed from payload bytes; every parameter's `create_request()` and every `Schedule.commit()`
+# is then a "req" case whose GIVEN fields are the position the value was put at in the payload (parameter index,
+# mixer index, thermostat slot and width, schedule kind) and the value / switch / parameter / bitmap reported there.
+_WORLDS = {}
+PER_THERMOSTAT = 15
+
+
+def _rand_triple(rng, size):
+    n = 256 ** size
+    while True:
+        lo, hi = sorted((rng.randrange(n), rng.randrange(n)))
+        t = (rng.randint(lo, hi), lo, hi)
+        if not all(b == 255 for x in t for b in x.to_bytes(size, "little")):
+            return t
+
+
+def world_layout(spec):
+    """what the controller reports, as data (a function of the spec alone)"""
+    import paramdev as pd
+    rng = random.Random(spec["wseed"])
+    t = pd.load_tables()["tables"]
+    prod = "P" if spec["product"] == pd.PRODUCT_P else "I"
+    erows, mrows, trows = t["ecomax" + prod], t["mixer" + prod], t["thermostat"]
+    sizes = [r["size"] for r in trows]
+    lay = dict(erows=erows, mrows=mrows, trows=trows, sizes=sizes,
+               ecomax=[_rand_triple(rng, 1) for _ in erows],
+               mixers=[[_rand_triple(rng, 1) for _ in mrows] for _ in range(spec["mixers"])],
+               profile=_rand_triple(rng, 1),
+               thermostats=[[_rand_triple(rng, sizes[i]) for i in range(len(trows))] for _ in range(spec["thermostats"])],
+               state=rng.choice([0, 3]),
+               schedules=[(k, rng.randrange(2), _rand_triple(rng, 1), [[rng.random() < 0.5 for _ in range(48)] for _ in range(7)])
+                          for k in range(len(fi.PINNED_SCHEDULES))])
+    return lay
+
+
+def build_world(spec):
+    key = json.dumps(spec, sort_keys=True)
+    if key in _WORLDS:
+        return _WORLDS[key]
+    import paramdev as pd
+    import vloop
+    lay = world_layout(spec)
+    loop = vloop.new_loop()
+    w = {}
+
+    async def populate():
+        world = pd.World()
+        w["world"] = world
+        await world.uid(spec["product"])
+        await world.ecomax_params(pd.ecomax_payload(0, lay["ecomax"]))
+        if spec["mixers"]:
+            await world.mixer_params(pd.mixer_payload(0, lay["mixers"]))
+        T = spec["thermostats"]
+        if T:
+            per = len(lay["trows"])
+            await world.thermostats_available(T)
+            await world.thermostat_params(pd.thermostat_payload(0, per * T + (1 if T > 1 else 0), lay["profile"], lay["thermostats"], lay["sizes"]))
+        await world.schedules(pd.schedules_payload(lay["schedules"]))
+        await world.state(lay["state"])
+        world.drain()
+
+    loop.run_until_complete(populate())
+    _WORLDS[key] = (w["world"], loop, lay)
+    return _WORLDS[key]
+
+
+def week_words(bits):
+    return ["".join("1" if b else "0" for b in day) for day in bits]
+
+
+def gen_routes(spec):
+    """the cases of one populated device: (given fields, how the library is asked to build the request)"""
+    lay = world_layout(spec)
+
+    def case(name, args, label, pname, how="create_request"):
+        return dict(t="req", name=name, args=args, route=dict(world=spec, label=label, pname=pname, how=how))
+
+    for i, (row, tr) in enumerate(zip(lay["erows"], lay["ecomax"])):
+        yield case("setecomax", dict(index=i, value=tr[0]), "ecomax", row["name"])
+    for m, trs in enumerate(lay["mixers"]):
+        for i, (row, tr) in enumerate(zip(lay["mrows"], trs)):
+            yield case("setmixer", dict(device_index=m, index=i, value=tr[0]), f"mixer{m}", row["name"])
+    per = len(lay["trows"])
+    for th, trs in enumerate(lay["thermostats"]):
+        for i, (row, tr) in enumerate(zip(lay["trows"], trs)):
+            yield case("setthermostat", dict(index=i + 1, value=tr[0], offset=th * per, size=lay["sizes"][i]), f"thermostat{th}", row["name"])
+    if spec["thermostats"]:
+        yield case("setthermostat", dict(index=0, value=lay["profile"][0], offset=0, size=1), "ecomax", "thermostat_profile")
+        yield case("range_ecomax", {}, "ecomax", "thermostat_profile", how="refresh")
+    yield case("control", dict(value=int(lay["state"] != 0)), "ecomax", "ecomax_control")
+    yield case("range_ecomax", {}, "ecomax", "ecomax_control", how="refresh")
+    # the re-read request of a parameter (Parameter.create_refresh_request / force_refresh): a range request that was
+    # given no start / count, i.e. the documented defaults
+    for rows, name, labels in ((lay["erows"], "range_ecomax", ["ecomax"]),
+                               (lay["mrows"], "range_mixer", [f"mixer{m}" for m in range(spec["mixers"])]),
+                               (lay["trows"], "range_thermostat", [f"thermostat{t}" for t in range(spec["thermostats"])])):
+        for label in labels:
+            for i in sorted({0, len(rows) // 2, len(rows) - 1}):
+                yield case(name, {}, label, rows[i]["name"], how="refresh")
+    for k, sw, par, bits in lay["schedules"]:
+        kind = fi.PINNED_SCHEDULES[k]
+        args = dict(type=kind, switch=sw, parameter=par[0], schedule=week_words(bits))
+        yield case("schedule", dict(args), "ecomax", f"{kind}_schedule_switch")
+        yield case("schedule", dict(args), "ecomax", f"{kind}_schedule_parameter")
+        yield case("schedule", dict(args), "ecomax", kind, how="commit")
+
+
+def impl_route(case):
+    r = case["route"]
+    world, loop, _ = build_world(r["world"])
+    dev = world.device(r["label"])
+    if r["how"] == "commit":
+        sched = dev.data["schedules"][r["pname"]]
+        world.drain()
+        loop.run_until_complete(sched.commit())
+        got = world.drain()
+        if len(got) != 1:
+            raise LookupError(f"{len(got)} frames queued by one commit()")
+        return got[0]
+    if r["how"] == "refresh":
+        return loop.run_until_complete(dev.data[r["pname"]].create_refresh_request())
+    return loop.run_until_complete(dev.data[r["pname"]].create_request())
+
+
 def impl_req(case):
     """the fields reach the frame as a data dict, as keyword arguments, split between the two, or as keyword
-    arguments OVER a template dict that holds other values for the same keys (the keyword wins)"""
+    arguments OVER a template dict that holds other values for the same keys (the keyword wins); or the request
+    is built by the library's own builder (`route`)"""
+    if case.get("route"):
+        return impl_route(case)
     code = REQS[case["name"]][0]
     cls = fi.frame_class(code)
     data = req_data(case)
@@ -596,6 +725,12 @@ def evaluate(cases, res, rng, producer_sample=150):
         t = case["t"]
         res.case(json.dumps(case, sort_keys=True), True)
         res.count("type:" + t + (":" + case["name"] if t == "req" else ""))
+        if t == "req":
+            r = case.get("route")
+            res.count("built by:" + ("the frame class from given fields" if not r else
+                                     "Schedule.commit()" if r["how"] == "commit" else
+                                     "Parameter.create_refresh_request()" if r["how"] == "refresh" else
+                                     "Parameter.create_request() of " + (type(o["frame"]).__name__ if o["frame"] is not None else "?")))
         if m == "bad-op":
             res.fail("corr", case, "a model answer", "bad-op", "driver rejected the request line")
             continue
@@ -770,6 +905,16 @@ def run(ctx):
             k += 1
     cases.extend(gen_defaults())
     cases.extend(gen_resp(rng, tier))
+    import paramdev as pd
+    specs = [dict(product=pd.PRODUCT_P, mixers=2, thermostats=2, wseed=ctx["seed"] * 11 + 1),
+             dict(product=pd.PRODUCT_I, mixers=3, thermostats=1, wseed=ctx["seed"] * 11 + 2)]
+    if tier != "quick":
+        specs += [dict(product=pd.PRODUCT_P, mixers=5, thermostats=3, wseed=ctx["seed"] * 11 + 3),
+                  dict(product=pd.PRODUCT_I, mixers=1, thermostats=3, wseed=ctx["seed"] * 11 + 4),
+                  dict(product=pd.PRODUCT_P, mixers=0, thermostats=0, wseed=ctx["seed"] * 11 + 5),
+                  dict(product=pd.PRODUCT_P, mixers=4, thermostats=2, wseed=ctx["seed"] * 11 + 6)]
+    for spec in specs:
+        cases.extend(gen_routes(spec))
     if ctx.get("max_cases"):
         cases = cases[:ctx["max_cases"]]
     impl, model = evaluate(cases, res, rng, producer_sample=150 if tier == "quick" else 2000)
